@@ -3,14 +3,18 @@
 // calls the REAL cl/blocks.Infos on each function's blocks, and walks the blocks in the same order as
 // cl/compile.go (Info.Next chain), which is the order in which ssa/eh.go numbers defer ids and bits.
 //
-// Output, one line per defer instruction:
+// Output (only for defers of the FIRST file):
 //
-//	D <fnline> <order> <line> <kind> <clo> <nargs>      (only for defers of the FIRST file)
+//	D <fnline> <order> <line> <kind> <clo> <nargs> <dom> <cyc>   a defer statement of the function at fnline
+//	S <fnline> <order>                                           a drain point (call of a range-over-func whose body defers)
+//	X <ownerline> <line> <clo> <nargs>                           a defer inside a range-over-func body (explicit defer stack)
+//	K <fnline>                                                   the function evaluates ssa:deferstack()
 //
-// fnline = source line of the enclosing function (declaration or func literal), order = index of the
-// defer in compile order within that function, line = source line of the defer statement,
-// kind = always|cond|loop (llssa.DeferAlways/DeferInCond/DeferInLoop), clo = 1 when the callee is a
-// closure value (ssa.MakeClosure or any non-static callee), nargs = number of call arguments.
+// fnline = source line of the enclosing function (declaration or func literal), order = index of the replay
+// statement in compile order within that function, line = source line of the defer statement,
+// kind = always|cond|loop (llssa.DeferAlways/DeferInCond/DeferInLoop, from the REAL cl/blocks), clo = 1 when the
+// callee is a closure value, nargs = number of call arguments; dom / cyc are computed here, independently of
+// cl/blocks, from go/ssa's dominator tree and CFG (see blockFacts).
 package main
 
 import (
@@ -96,39 +100,135 @@ func kindName(k llssa.DoAction) string {
 	return fmt.Sprint("kind", int(k))
 }
 
+// hasStackDefer mirrors cl/compile.go functionHasExplicitStackDefer: a defer with an explicit defer stack in fn or in
+// a function nested in it.
+func hasStackDefer(fn *ssa.Function) bool {
+	for _, b := range fn.Blocks {
+		for _, in := range b.Instrs {
+			if d, ok := in.(*ssa.Defer); ok && d.DeferStack != nil {
+				return true
+			}
+		}
+	}
+	for _, c := range fn.AnonFuncs {
+		if hasStackDefer(c) {
+			return true
+		}
+	}
+	return false
+}
+
+// drainPoint mirrors rangeFuncCallNeedsDeferDrain: a call that passes a range-over-func yield closure which defers.
+func drainPoint(c *ssa.Call) bool {
+	for _, arg := range c.Call.Args {
+		mc, ok := arg.(*ssa.MakeClosure)
+		if !ok {
+			continue
+		}
+		fn, ok := mc.Fn.(*ssa.Function)
+		if ok && fn.Synthetic == "range-over-func yield" && hasStackDefer(fn) {
+			return true
+		}
+	}
+	return false
+}
+
+// INDEPENDENT facts about the block of a defer, from the definition rather than from cl/blocks:
+// dom = the block dominates every block where the function ends (return or explicit panic; the recover block and
+// unreachable blocks do not count), cyc = the block lies on a cycle.
+func blockFacts(fn *ssa.Function, b *ssa.BasicBlock) (dom, cyc int) {
+	dom = 1
+	for _, e := range fn.Blocks {
+		if len(e.Succs) != 0 || e == fn.Recover || (len(e.Preds) == 0 && e.Index != 0) {
+			continue
+		}
+		if !b.Dominates(e) {
+			dom = 0
+		}
+	}
+	seen := map[*ssa.BasicBlock]bool{}
+	var stack []*ssa.BasicBlock
+	stack = append(stack, b.Succs...)
+	for len(stack) > 0 {
+		x := stack[len(stack)-1]
+		stack = stack[:len(stack)-1]
+		if x == b {
+			cyc = 1
+			break
+		}
+		if seen[x] {
+			continue
+		}
+		seen[x] = true
+		stack = append(stack, x.Succs...)
+	}
+	return
+}
+
+func calleeIsClosure(d *ssa.Defer) int {
+	if _, static := d.Call.Value.(*ssa.Function); static && d.Call.Method == nil {
+		return 0
+	}
+	if _, bi := d.Call.Value.(*ssa.Builtin); bi {
+		return 0
+	}
+	return 1
+}
+
 func report(w *bufio.Writer, fset *token.FileSet, fn *ssa.Function) {
 	has := false
 	for _, b := range fn.Blocks {
 		for _, in := range b.Instrs {
-			if _, ok := in.(*ssa.Defer); ok {
+			switch v := in.(type) {
+			case *ssa.Defer:
 				has = true
+			case *ssa.Call:
+				if drainPoint(v) {
+					has = true
+				}
+				if bi, ok := v.Call.Value.(*ssa.Builtin); ok && bi.Name() == "ssa:deferstack" {
+					fmt.Fprintf(w, "K %d\n", fset.Position(fn.Pos()).Line)
+				}
 			}
 		}
 	}
 	if !has {
 		return
 	}
-	infos := blocks.Infos(fn.Blocks)
+	first := os.Args[1]
 	fnline := fset.Position(fn.Pos()).Line
+	// defers of a range-over-func body belong to the enclosing syntactic function (cl deferStackOwner)
+	owner := fn
+	for owner != nil && owner.Synthetic != "" {
+		owner = owner.Parent()
+	}
+	ownerline := 0
+	if owner != nil {
+		ownerline = fset.Position(owner.Pos()).Line
+	}
+	infos := blocks.Infos(fn.Blocks)
 	order := 0
 	for i := 0; i >= 0; i = infos[i].Next {
 		for _, in := range fn.Blocks[i].Instrs {
-			d, ok := in.(*ssa.Defer)
-			if !ok {
-				continue
+			switch d := in.(type) {
+			case *ssa.Call:
+				if drainPoint(d) && fset.Position(fn.Pos()).Filename == first {
+					fmt.Fprintf(w, "S %d %d\n", fnline, order)
+					order++
+				}
+			case *ssa.Defer:
+				pos := fset.Position(d.Pos())
+				if pos.Filename != first {
+					continue
+				}
+				if d.DeferStack != nil {
+					fmt.Fprintf(w, "X %d %d %d %d\n", ownerline, pos.Line, calleeIsClosure(d), len(d.Call.Args))
+					continue
+				}
+				dom, cyc := blockFacts(fn, fn.Blocks[i])
+				fmt.Fprintf(w, "D %d %d %d %s %d %d %d %d\n", fnline, order, pos.Line, kindName(infos[i].Kind), calleeIsClosure(d), len(d.Call.Args), dom, cyc)
+				order++
 			}
-			clo := 1
-			if _, static := d.Call.Value.(*ssa.Function); static && d.Call.Method == nil {
-				clo = 0
-			}
-			if _, bi := d.Call.Value.(*ssa.Builtin); bi {
-				clo = 0
-			}
-			if fset.Position(d.Pos()).Filename != os.Args[1] {
-				continue
-			}
-			fmt.Fprintf(w, "D %d %d %d %s %d %d\n", fnline, order, fset.Position(d.Pos()).Line, kindName(infos[i].Kind), clo, len(d.Call.Args))
-			order++
 		}
 	}
 }
